@@ -36,6 +36,7 @@ type mspec struct {
 	param    string
 	domains  []string
 	kids     []*mspec
+	funcs    bool // built with AndMatcherFunc/OrMatcherFunc
 }
 
 func (m *mspec) String() string {
@@ -51,7 +52,11 @@ func (m *mspec) String() string {
 		for i, k := range m.kids {
 			ks[i] = k.String()
 		}
-		return m.kind + "(" + strings.Join(ks, ", ") + ")"
+		name := m.kind
+		if m.funcs {
+			name += "Func"
+		}
+		return name + "(" + strings.Join(ks, ", ") + ")"
 	}
 	return "nil"
 }
@@ -72,6 +77,16 @@ func (m *mspec) build() mux.Matcher {
 				continue
 			}
 			ks = append(ks, k.build())
+		}
+		if m.funcs { // the ...Func constructors must behave like the interface ones
+			fs := make([]func(*http.Request, *types.Context) bool, len(ks))
+			for i, k := range ks {
+				fs[i] = k.Match
+			}
+			if m.kind == "and" {
+				return mux.AndMatcherFunc(fs...)
+			}
+			return mux.OrMatcherFunc(fs...)
 		}
 		if m.kind == "and" {
 			return mux.AndMatcher(ks...)
@@ -158,7 +173,7 @@ func genMatcher(r *ref.R, depth int) *mspec {
 	case x < 6:
 		return &mspec{kind: "nil"}
 	}
-	m := &mspec{kind: "and"}
+	m := &mspec{kind: "and", funcs: r.Chance(1, 3)}
 	if x >= 8 {
 		m.kind = "or"
 	}
